@@ -20,8 +20,7 @@ THEOREMS = ['C10_cc_wu_bin_eq_bu', 'C10_cc_wd_bin_eq_bd', 'C10_trans_wu_bin_eq_b
             'C10_density_ignores_weights', 'C10_jdegree_ignores_weights', 'C10_edge_nei_overlap_ignores_weights',
             'C10_findwalks_reachdist_ignore_weights', 'C10_distance_efficiency_bin_ignore_weights',
             'C10_betweenness_wei_bin_eq_bin', 'C10_edge_betweenness_wei_bin_eq_bin', 'C10_cc_visible_quotient',
-            'C10_cc_any_diagonal', 'C10_cc_wu_bu_selfloop_refuted', 'C10_cc_bd_bu_selfloop_refuted',
-            'C10_eloc_no_division_by_zero', 'C10_binarize_first_suffices']
+            'C10_cc_any_diagonal', 'C10_eloc_no_division_by_zero', 'C10_binarize_first_suffices']
 RULE = ('pairs of public functions evaluated on the same matrix: all undirected 0/1 graphs n<=4 (quick) / n<=5 (thorough), all '
         'digraphs n<=3 / n<=4, random 0/1 graphs and symmetric weighted graphs n<=8 (weights m^3/512), disconnected graphs, '
         'isolated nodes; weighted (directed and undirected, weights k/8 and >1) vs binarised input for the routines whose '
@@ -30,7 +29,7 @@ RULE = ('pairs of public functions evaluated on the same matrix: all undirected 
         'efficiency_bin on 0/1 input, shape and value against a brute-force BFS oracle; SELF-CONNECTIONS: every nonempty 0/1 diagonal on all '
         'undirected graphs n<=3 / n<=4 and digraphs n<=2 / n<=3 (+ slices of the next size), the random 0/1 graphs again with random self-connections, '
         'symmetric weighted graphs with weighted self-connections, weighted matrices with weighted self-connections for the ignore clause -- every '
-        'pair, and every modelled member against its model (per-node clustering through the visible-quotient model, inf = inf); the inexpensive '
+        'pair, and every modelled member against its model (per-node clustering through the statement-level model with the visible quotient); the inexpensive '
         'pairs (clustering, transitivity, degrees/strengths, distance, global efficiency, assortativity flags 0-4) on random graphs n = 9..16 with and '
         'without self-connections; assortativity_wei/_bin flags 1-4 as direct pairs on every 0/1 matrix; the AST fact `first use of the matrix is '
         'binarize(matrix)` for the eight binarising routines; non-trivial = the matrix has at least one edge (self-connection cases: at least one '
@@ -41,9 +40,9 @@ ASSUMES = ['PROVED between the Coq models: clustering_coef wu/bu wd/bd bd/bu wd/
            '(any weights), density_und/dir, jdegree, edge_nei_overlap_bu/bd, findwalks, reachdist, distance_bin, efficiency_bin',
            'betweenness_wei/bin and edge_betweenness_wei/bin on 0/1 input: PROVED between C08\'s models (re-export of C08_wei_eq_bin_on_binary; the '
            'models are tied to the code by C08\'s correspondence, here the two public functions are compared); findpaths raises (known finding)',
-           'self-connections: clustering_coef_wu/bu and bd/bu are REFUTED on symmetric 0/1 matrices with self-connections (inf vs 0 at nodes with '
-           'fewer than two neighbours on a closed 3-walk: C10_cc_*_selfloop_refuted, known findings <pair>:selfloop); at every other node, and for every '
-           'other pair, agreement is required and proved for any diagonal',
+           'self-connections: no theorem has a hypothesis on the diagonal and every pair is required to agree on matrices with self-connections '
+           '(clustering_coef_wu/bu and bd/bu since the repair 366dab6 of the defect this check found: inf vs 0 at nodes with fewer than two neighbours '
+           'on a closed 3-walk); the per-node clustering coefficients must be finite on every input (C10_cc_visible_quotient)',
            'local efficiencies must be finite (C10_eloc_no_division_by_zero); elsewhere inf == inf and nan == nan count as agreement',
            'f(W) == f(binarize(W)) for findwalks / reachdist / distance_bin / efficiency_bin / jdegree / degrees_*: the Coq statement is about g(binarize(.)); '
            'that the SOURCE has this shape is the fail-closed AST check <routine>:binarizes_first (any other first use of the matrix, a changed default of '
@@ -208,17 +207,6 @@ def all_finite(x):
         return False
 
 
-def o_selfloop_nodes(W):
-    """symmetric 0/1 matrix: the nodes with fewer than two nonzero entries in their row that lie on a closed walk of
-    length 3 (brute force over all (j, k)); with an empty diagonal there is none"""
-    n = len(W)
-    out = []
-    for i in range(n):
-        if sum(1 for j in range(n) if W[i][j] != 0) < 2 and any(W[i][j] != 0 and W[j][k] != 0 and W[k][i] != 0 for j in range(n) for k in range(n)):
-            out.append(i)
-    return out
-
-
 def with_diag(r, A, p=0.5):
     """copy of A with self-connections of weight 1: each diagonal entry with probability p, at least one"""
     n = len(A)
@@ -367,40 +355,6 @@ class Pairs:
             ctx.check(all_finite(a) and all_finite(b), key + ':finite', 'non-finite entry: %r vs %r' % (brief(a), brief(b)), case)
         return a
 
-    def pair_selfloop(self, key, W, f, g, family):
-        """clustering_coef_wu/bu and bd/bu on a symmetric 0/1 matrix WITH self-connections (C10_cc_any_diagonal): every
-        node must get the same finite value from both routines, except the nodes the theorem singles out -- fewer than two
-        nonzero entries in the row and a closed 3-walk (necessarily through a self-connection) -- where the left routine
-        returns inf and clustering_coef_bu 0: that is the recorded finding `<pair>:selfloop` (C10_cc_*_selfloop_refuted);
-        both returning the same finite value there (a repaired tree) is accepted"""
-        ctx = self.ctx
-        case = {'pair': key, 'W': G9.strs(W)}
-        ctx.case(case, nontrivial=any(W[i][i] != 0 for i in range(len(W))))
-        ctx.count('pair:' + key + ':selfloop_input'); ctx.count('family:' + family); ctx.count('n=%d' % len(W))
-        A = G9.npm(W)
-        ctx.take_variants()
-        try:
-            with np.errstate(all='ignore'):
-                a = np.asarray(call(f, A.copy()), dtype=float); b = np.asarray(call(g, A.copy()), dtype=float)
-        except Exception as e:
-            tie_variants(case, since_take=True)
-            ctx.fail(key + ':raises', repr(e), case); return None
-        tie_variants(case, since_take=True)
-        n = len(W)
-        if a.shape != (n,) or b.shape != (n,):
-            ctx.fail(key, 'shapes %r / %r' % (a.shape, b.shape), case); return None
-        special = o_selfloop_nodes(W)
-        bad = [i for i in range(n) if i not in special and not (np.isfinite(a[i]) and np.isfinite(b[i]) and same(a[i], b[i]))]
-        ctx.check(not bad, key, 'the two routines differ at node(s) %r: %r vs %r' % (bad, a.tolist(), b.tolist()), case)
-        hit = [i for i in special if np.isinf(a[i]) and b[i] == 0]
-        odd = [i for i in special if i not in hit and not (np.isfinite(a[i]) and np.isfinite(b[i]) and same(a[i], b[i]))]
-        ctx.check(not odd, key, 'the two routines differ at node(s) %r (fewer than two neighbours, closed 3-walk): %r vs %r' % (odd, a.tolist(), b.tolist()), case)
-        if hit:
-            ctx.count('selfloop_inf_nodes', len(hit))
-            ctx.fail(key + ':selfloop', 'node(s) %r: inf from the %s routine, 0 from clustering_coef_bu: %r vs %r'
-                     % (hit, key.split('/')[0], a.tolist(), b.tolist()), case)
-        return a
-
     def ignores(self, fn, W, f, family, tolerate=()):
         """documented to ignore weights: f(W) == f(binarize(W))"""
         ctx = self.ctx
@@ -523,7 +477,7 @@ class Pairs:
     # ---------------------------------------------------------------- 0/1 input: weighted routine = binary routine
     def binary_any(self, A, family):
         bct = self.bct
-        self.pair('clustering_coef_wd/clustering_coef_bd', A, bct.clustering_coef_wd, bct.clustering_coef_bd, family)
+        self.pair('clustering_coef_wd/clustering_coef_bd', A, bct.clustering_coef_wd, bct.clustering_coef_bd, family, finite=True)
         self.pair('transitivity_wd/transitivity_bd', A, bct.transitivity_wd, bct.transitivity_bd, family)
         self.pair('distance_wei/distance_bin', A, lambda M: bct.distance_wei(M)[0], bct.distance_bin, family)
         # the hop-count matrix of distance_wei equals the distance wherever a path exists
@@ -582,7 +536,7 @@ class Pairs:
     def cheap(self, A, sym, diag, family):
         """the inexpensive pairs on larger matrices (n up to 16), no model line; degrees against a brute-force count"""
         bct, ctx = self.bct, self.ctx
-        self.pair('clustering_coef_wd/clustering_coef_bd', A, bct.clustering_coef_wd, bct.clustering_coef_bd, family)
+        self.pair('clustering_coef_wd/clustering_coef_bd', A, bct.clustering_coef_wd, bct.clustering_coef_bd, family, finite=True)
         self.pair('transitivity_wd/transitivity_bd', A, bct.transitivity_wd, bct.transitivity_bd, family)
         self.pair('strengths_dir/degrees_dir', A, bct.strengths_dir, lambda M: bct.degrees_dir(M)[2], family)
         self.pair('distance_wei/distance_bin', A, lambda M: bct.distance_wei(M)[0], bct.distance_bin, family)
@@ -630,25 +584,27 @@ class Pairs:
                 ctx.check(ok, key + ':local_value', 'expected the local efficiency vector %r, got %r' % (want, r.tolist()), case)
 
     def binary_und(self, A, family, diag=False):
-        """symmetric 0/1 input; diag=True: the matrix carries self-connections -- the two pairs that need an empty diagonal
-        (C10_cc_wu_bu_selfloop_refuted, C10_cc_bd_bu_selfloop_refuted) are judged node by node, every other pair as usual"""
+        """symmetric 0/1 input; diag=True: the matrix carries self-connections -- the same pairs (no theorem has a hypothesis
+        on the diagonal since the repair 366dab6; before it clustering_coef_wu / _bd returned inf where clustering_coef_bu
+        returns 0), without the C09-style model lines of the empty-diagonal stream (corr_diag runs the models there).
+        The per-node clustering values must be finite on every input (C10_cc_visible_quotient)"""
         bct = self.bct
         if diag:
-            self.pair_selfloop('clustering_coef_wu/clustering_coef_bu', A, bct.clustering_coef_wu, bct.clustering_coef_bu, family)
-            self.pair_selfloop('clustering_coef_bd/clustering_coef_bu', A, bct.clustering_coef_bd, bct.clustering_coef_bu, family)
+            self.pair('clustering_coef_wu/clustering_coef_bu', A, bct.clustering_coef_wu, bct.clustering_coef_bu, family, finite=True)
+            self.pair('clustering_coef_bd/clustering_coef_bu', A, bct.clustering_coef_bd, bct.clustering_coef_bu, family, finite=True)
             self.pair('transitivity_wu/transitivity_bu', A, bct.transitivity_wu, bct.transitivity_bu, family)
             self.pair('strengths_und/degrees_und', A, bct.strengths_und, bct.degrees_und, family)
             self.pair('assortativity_wei/assortativity_bin', A, lambda M: bct.assortativity_wei(M, 0), lambda M: bct.assortativity_bin(M, 0), family)
             self.pair('transitivity_bd/transitivity_bu', A, bct.transitivity_bd, bct.transitivity_bu, family)
             return
-        self.pair('clustering_coef_wu/clustering_coef_bu', A, bct.clustering_coef_wu, bct.clustering_coef_bu, family)
+        self.pair('clustering_coef_wu/clustering_coef_bu', A, bct.clustering_coef_wu, bct.clustering_coef_bu, family, finite=True)
         self.pair('transitivity_wu/transitivity_bu', A, bct.transitivity_wu, bct.transitivity_bu, family)
         s = self.pair('strengths_und/degrees_und', A, bct.strengths_und, bct.degrees_und, family)
         if s is not None:
             self.model('degrees_und', 'deg ' + enc_mat(A, enc_q) + ' 0', {'fn': 'degrees_und', 'W': G9.strs(A)}, s)
         self.pair('assortativity_wei/assortativity_bin', A, lambda M: bct.assortativity_wei(M, 0), lambda M: bct.assortativity_bin(M, 0), family)
         # symmetric 0/1 input: directed = undirected
-        c = self.pair('clustering_coef_bd/clustering_coef_bu', A, bct.clustering_coef_bd, bct.clustering_coef_bu, family)
+        c = self.pair('clustering_coef_bd/clustering_coef_bu', A, bct.clustering_coef_bd, bct.clustering_coef_bu, family, finite=True)
         if c is not None and self.ctx.evaluations % 3 == 0:
             self.model('clustering_coef_bd', 'cc_bd ' + enc_mat(A, enc_q), {'fn': 'clustering_coef_bd', 'W': G9.strs(A)}, c)
         t = self.pair('transitivity_bd/transitivity_bu', A, bct.transitivity_bd, bct.transitivity_bu, family)
@@ -660,7 +616,7 @@ class Pairs:
         """diag=True: W carries self-connections (no theorem of this group has a hypothesis on the diagonal); the per-node
         model is then the one with the visible quotient (Model/ClusteringInf.v, inf = inf)"""
         bct = self.bct
-        c = self.pair('clustering_coef_wd/clustering_coef_wu', W, bct.clustering_coef_wd, bct.clustering_coef_wu, family)
+        c = self.pair('clustering_coef_wd/clustering_coef_wu', W, bct.clustering_coef_wd, bct.clustering_coef_wu, family, finite=True)
         if c is not None and diag:
             case = {'fn': 'clustering_coef_wd', 'W': G9.strs(W)}
             if getattr(self, '_pv', None):
@@ -749,7 +705,7 @@ def run(ctx):
                 P.binary_und(A, 'slice_und4_diag', diag=True); P.binary_any(A, 'slice_und4_diag'); P.corr_diag(A, True)
             for A in itertools.islice(all_diag(G9.all_dir, 3), 3, 448, 19):
                 P.binary_any(A, 'slice_dir3_diag'); P.corr_diag(A, False)
-        # the Coq witness of C10_cc_wu_bu_selfloop_refuted / C10_cc_bd_bu_selfloop_refuted, and the audit's 6-node graph
+        # the input that exposed inf vs 0 in clustering_coef_wu / _bd before 366dab6 (C10_selfloop_nonvacuous), and the audit's 6-node graph
         for A in ([[1, 1], [1, 0]], [[1]],
                   [[1, 1, 0, 0, 0, 0], [1, 0, 0, 0, 0, 1], [0, 0, 1, 1, 0, 1], [0, 0, 1, 1, 0, 0], [0, 0, 0, 0, 0, 1], [0, 1, 1, 0, 1, 1]]):
             A = [[F(x) for x in row] for row in A]
